@@ -314,6 +314,10 @@ func CaseSend[T any](s *Select, c *Chan[T], v T) {
 	})
 }
 
+// CaseSendOn is CaseSend as a method: the value only has to be assignable to the element type (a concrete type sent
+// on a channel of an interface type), which type inference for the function form does not allow.
+func (c *Chan[T]) CaseSendOn(s *Select, v T) { CaseSend(s, c, v) }
+
 // finishPassive copies a value handed over by a partner into the case handle.
 func (r *RecvCase[T]) finishPassive() {
 	if r.w != nil && r.w.done {
